@@ -366,10 +366,11 @@ def run_case(ctx, rng, ci, names):
                  {"argv": argv, "inputs": gen.ds_summary(ds), "rows": len(rows)})
 
 
-def obsfcst_table(ctx, rng, ci):
-    """-m obsfcst as a table: columns obs + one per input, aggregated over the cases where both obs and fcst exist"""
+def obsfcst_table(ctx, rng, ci, options=False):
+    """-m obsfcst as a table: columns obs + one per input, aggregated over the cases where both obs and fcst exist.
+    options=True (C13): always with -q, often with -leg, options in random order"""
     F = rng.choice([1, 2, 3])
-    withq = rng.random() < 0.5
+    withq = rng.random() < 0.5 or options
     ds = gen.make_dataset(rng, n_inputs=F, miss=rng.choice([0.0, 0.15]), sparse=0.0, max_t=4, max_l=4, max_s=3, vrange=(0, 14),
                           prob=withq, thresholds=[5.0] if withq else None, quantiles=[0.1, 0.5, 0.9] if withq else None)
     d = os.path.join(ctx.workdir, "of%d" % ci)
@@ -384,8 +385,16 @@ def obsfcst_table(ctx, rng, ci):
         # quantile columns: one per (quantile, file), quantile-major, named "<file> <level>%"
         otype = "csv"
         qs = rng.sample([0.1, 0.5, 0.9], rng.randint(1, 3))
-    argv = ["-m", "obsfcst", "-x", axis, "-type", otype] + (["-agg", agg] if agg else []) + (["-acc"] if acc else []) + \
-        (["-q", ",".join(gen.fnum(q) for q in qs)] if qs else [])
+    groups = [["-m", "obsfcst"], ["-x", axis], ["-type", otype]] + ([["-agg", agg]] if agg else []) + ([["-acc"]] if acc else []) + \
+        ([["-q", ",".join(gen.fnum(q) for q in qs)]] if qs else [])
+    names = [i["name"] for i in ds["inputs"]]
+    if options:
+        if rng.random() < 0.6:
+            names = ["L%d" % (F - k) for k in range(F)]
+            groups.append(["-leg", ",".join(names)])
+            ctx.count("obsfcst_leg_tables")
+        rng.shuffle(groups)
+    argv = [a for g in groups for a in g]
     o = runner.run_cli(paths + argv)
     case = {"ds": ds, "argv": argv}
     if o.status != "ok":
@@ -395,7 +404,7 @@ def obsfcst_table(ctx, rng, ci):
     header, rows = runner.parse_csv(o.stdout) if otype == "csv" else parse_text(o.stdout)
     ctx.count("tables")
     nd = 4 if axis in refmodel.LOC_AXES else 1
-    want_names = ["obs"] + [i["name"] for i in ds["inputs"]] + ["%s %g%%" % (i["name"], q * 100) for q in qs for i in ds["inputs"]]
+    want_names = ["obs"] + names + ["%s %g%%" % (n, q * 100) for q in qs for n in names]
     if [h.strip() for h in header][nd:] != want_names:
         ctx.violation("header|obsfcst", "header %s, documented ... %s" % (header, want_names), case)
         return
